@@ -27,7 +27,7 @@ T = {
     "C07": ("exploration", "4/C07", "metamorphic segmentation invariance + generated message list as reference",
             "Generated HTTP/EVENT sequences are fed through the real feed loop under every single and double cut (small streams) and random multi-cuts; delivered messages must equal the generated list.",
             "Only well-formed messages are generated (no chunk extensions/trailers)."),
-    "C08": ("exploration", "4/C08", "schedule exploration on a virtual-time loop with tagged responses (bounded DFS + Hypothesis histories), incl. a peer that stops reading (write-buffer model checked against real TCP)",
+    "C08": ("exploration", "4/C08", "schedule exploration on a virtual-time loop with tagged responses (bounded DFS + Hypothesis histories), incl. a peer that stops reading and resets the loop has not polled yet (transport model checked against real TCP)",
             "Interleavings of requests, partial responses, events, cancels, timeouts, FIN/reset are executed on the real connection; each caller must get its own tagged response or a disconnection error, promptly.",
             "Event-loop-callback granularity on an in-memory network."),
     "C09": ("exploration", "4/C09", "strict independent request parser over generated API calls",
@@ -36,16 +36,16 @@ T = {
     "C10": ("fault_enumeration", "4/C10", "schedule model over attempt logs on a simulated network (DFS + Hypothesis)",
             "Per-attempt outcomes and harness events are enumerated/generated; the attempt log is checked for single connector, growing capped back-off, persistence, termination, waiter outcomes and fair exclusion.",
             "Bounded liveness on the virtual clock; statement-level back-off bounds (not the tree's constants)."),
-    "C11": ("fault_enumeration", "4/C11", "open-connection count on the simulated accessory after every step",
+    "C11": ("fault_enumeration", "4/C11", "fault enumeration over per-attempt outcomes (incl. damaged stored keys) and generated histories; open-connection count on the simulated accessory after every step",
             "Histories of failed/successful secure setups, retries, peer closes of old and new connections and close() are executed; the accessory-side set of connections not closed by the controller must stay <= 1 and reach 0 after close.",
-            "In-memory network; close() of an idle loop is observed after running to idle."),
-    "C12": ("exploration", "4/C12", "model-based histories (Hypothesis op lists) vs subscription/listener model on the simulated IP transport; generated CoAP event notifications",
+            "In-memory network (transport model compared with real TCP in SELFTEST); close() of an idle loop is observed after running to idle."),
+    "C12": ("exploration", "4/C12", "model-based histories (Hypothesis op lists) vs subscription/listener model on the simulated IP transport; generated CoAP event notifications; enumerated and generated BLE subscription cases with refused start_notify calls",
             "Subscribe/unsubscribe/listener/drop/reconnect/event-burst histories run against the simulated accessory; registry on the accessory and per-listener call logs are compared with the model.",
             "Polling fallback exemption as written in the statement."),
     "C13": ("exploration", "4/C13", "decision table over status vectors (exhaustive n<=3) on IP, CoAP and BLE fakes",
             "Scripted accessory replies for every status vector; return values and listener notifications are compared with the table.",
             "Conformant reply shape (a 207 write reply lists every written characteristic)."),
-    "C14": ("exploration", "4/C14", "differential vs exact rational model (fractions.Fraction)",
+    "C14": ("exploration", "4/C14", "differential vs exact rational model (fractions.Fraction) over generated and enumerated (format, range, step, input) cells, metadata through every construction path incl. the tree's own BLE GATT fetch against a simulated accessory",
             "Service.build_update / check_convert_value over generated formats, ranges, steps and inputs compared with exact arithmetic on the decimal reading of the inputs; garbage must raise FormatError only.",
             "Decimal reading of floats via repr; tolerance regime as stated in the property."),
     "C15": ("exploration", "4/C15", "reference codec differential, exhaustive short byte strings, Hypothesis + atheris",
@@ -54,7 +54,7 @@ T = {
     "C16": ("exploration", "4/C16", "reflection-driven round trip + reference struct encoder",
             "Every TLVStruct subclass found by reflection gets type-directed generated values; decode(encode(x)) == x and encode(x) equals the reference encoder; reference-encoded signatures and CoAP databases are decoded and compared.",
             "Reference struct encoder in vlib/refhap.py; float-annotated fields left unset."),
-    "C17": ("exploration", "4/C17", "exhaustive fragment-size x length grid, reference reassembly, CoAP outcome vectors",
+    "C17": ("exploration", "4/C17", "exhaustive fragment-size x length grid, reference reassembly, CoAP outcome vectors, CoAP first-contact reads of generated services, BLE requests after abandoned ones",
             "BLE encode_pdu / _write_pdu / _read_pdu and CoAP encode/decode_all_pdus are compared with a reference reassembler over the full 8..64 x 0..200 grid, realistic sizes, all compositions of small responses and all outcome vectors for k<=4.",
             "Fake GATT client at the bleak API boundary."),
     "C18": ("exploration", "4/C18", "history exploration vs freshness model with independent partial-tag AEAD",
@@ -63,7 +63,7 @@ T = {
     "C19": ("exploration", "4/C19", "schedule exploration of waiters on a virtual clock + generated/fuzzed advertisement contents",
             "Waiter/advertisement schedules on the mDNS, BLE and aggregate controllers; completion instants and parsed descriptions compared with an independent parse; callbacks must never raise.",
             "zeroconf cache fed directly; scanner not started."),
-    "C20": ("fault_enumeration", "4/C20", "crash-point enumeration (every effect, every write prefix) + generated round trips",
+    "C20": ("fault_enumeration", "4/C20", "crash-point enumeration (every effect, every write prefix) + generated round trips; restart after every step of generated IP / BLE configuration- and state-number histories on a file cache",
             "Controller.save_data is aborted at every file-system effect and byte prefix and the file re-read by a fresh Controller; pairing sets and accessory databases round-trip through save/load and the cache file; every prefix of a cache file loads as empty.",
             "Process-crash model with surviving OS; rename atomic."),
 }
